@@ -335,7 +335,10 @@ def step (st : St) (toks : List Val) (impl : String) : St × Out :=
   | [.w "rnext", .i r] => withRing st r fun a => ringLine st (.next a)
   | [.w "rprev", .i r] => withRing st r fun a => ringLine st (.prev a)
   | [.w "rmove", .i r, .i n] => withRing st r fun a => ringLine st (.move a n)
-  | [.w "rlink", .i r, .i s] => withRing st r fun a => withRing st s fun b => ringLine st (.link a b)
+  | [.w "rlink", .i r, .i s] =>
+    -- `-1` as the argument is `Link(nil)`
+    if s == -1 then withRing st r fun a => ringLine st (.link a none)
+    else withRing st r fun a => withRing st s fun b => ringLine st (.link a b)
   | [.w "runlink", .i r, .i n] => withRing st r fun a => ringLine st (.unlink a n)
   | [.w "rlen", .i r] => withRing st r fun a => ringLine st (.len a)
   | [.w "rdo", .i r] => withRing st r fun a => ringLine st (.doAll a)
